@@ -101,6 +101,8 @@ type w18scn struct {
 	peers   bool
 	evs     []w18ev
 	giveUp  int
+	again   bool // after a Recv that timed out: Recv again, a message arrives while it waits
+	inherit bool // the deadline is set on the socket before the context is opened (and not on the context)
 }
 
 func (s *w18scn) String() string {
@@ -117,6 +119,7 @@ type w18res struct {
 	elapsed int64
 	evAt    []int64 // measured time (ms, before the action) of each event
 	skipped string
+	follow  string // outcome of the follow-up Recv (`again`)
 }
 
 func b2s(b bool) string {
@@ -159,6 +162,16 @@ func w18run(sc *w18scn) *w18res {
 		}
 	}()
 	if st.recv == "context" {
+		if sc.inherit {
+			name := mangos.OptionRecvDeadline
+			if st.fn == "SendMsg" {
+				name = mangos.OptionSendDeadline
+			}
+			if proto.SetOption(name, time.Duration(sc.expire)*time.Millisecond) != nil {
+				res.skipped = "the socket does not take the deadline option"
+				return res
+			}
+		}
 		c, err := proto.OpenContext()
 		if err != nil {
 			res.skipped = "no context"
@@ -362,7 +375,9 @@ func w18run(sc *w18scn) *w18res {
 		}
 	}
 	// configuration under test
-	w18setDeadline(ctx, proto, st.fn, time.Duration(sc.expire)*time.Millisecond)
+	if !sc.inherit {
+		w18setDeadline(ctx, proto, st.fn, time.Duration(sc.expire)*time.Millisecond)
+	}
 	if st.be {
 		w18setBool(ctx, proto, mangos.OptionBestEffort, sc.be)
 	}
@@ -443,6 +458,21 @@ func w18run(sc *w18scn) *w18res {
 	} else {
 		res.out, res.elapsed = "blocked", time.Since(t0).Milliseconds()
 	}
+	if sc.again && res.out == "timeout" && st.fn == "RecvMsg" {
+		c2 := vp.GoRecv(ctx)
+		time.Sleep(20 * time.Millisecond)
+		makeReady()
+		if c2.Wait(400 * time.Millisecond) {
+			if c2.Err == nil {
+				res.follow = "ok"
+				c2.Msg.Free()
+			} else {
+				res.follow = vp.ErrName(c2.Err)
+			}
+		} else {
+			res.follow = "blocked"
+		}
+	}
 	return res
 }
 
@@ -455,6 +485,15 @@ func w18scenarios(c *Ctx, st w18site) []*w18scn {
 		add(0, false, false, true, true, 300)
 		add(60, false, false, true, true, 300)
 		return out
+	}
+	if st.fn == "RecvMsg" && st.fam == "recv" {
+		// a Recv that timed out leaves the socket / context as it was: the next Recv waits again and gets what arrives
+		out = append(out, &w18scn{site: st, expire: 60, peers: true, giveUp: 460, again: true})
+	}
+	if st.recv == "context" && (st.fam == "recv" || st.fam == "recv-survey" || st.fam == "recv-req") && st.pkg != "protocol/rep" {
+		// (REP contexts take over nothing from the socket: Obl.CtxInherit lists what each pattern's OpenContext copies)
+		// a context opened after the socket's deadline was set waits for that deadline
+		out = append(out, &w18scn{site: st, expire: 70, peers: true, giveUp: 470, inherit: true})
 	}
 	canClose := !st.noClose
 	// a reply's destination pipe going away ends the send by design (dropped or ErrClosed): not a C18 matter
@@ -617,6 +656,9 @@ func init() {
 			fnpOn := sc.fnp && sc.site.fnp
 			if strings.HasPrefix(r.out, "other:") {
 				c.Violate(fmt.Sprintf("%s %s.%s returned %s", sc.site.pkg, sc.site.recv, sc.site.fn, r.out), replay)
+			}
+			if sc.again && r.out == "timeout" && r.follow != "ok" {
+				c.Violate(fmt.Sprintf("%s %s.%s: after a Recv had timed out, the next Recv (a message arrived 20 ms into it) ended with %q — a timeout must leave the object as it was", sc.site.pkg, sc.site.recv, sc.site.fn, r.follow), replay)
 			}
 			if r.out == "timeout" && (sc.expire == 0 || r.elapsed < int64(sc.expire)) {
 				c.Violate(fmt.Sprintf("%s %s.%s reported a timeout after %d ms with deadline %d ms", sc.site.pkg, sc.site.recv, sc.site.fn, r.elapsed, sc.expire), replay)
